@@ -53,11 +53,59 @@ def other_side(repo):
 _current = {}
 
 
+_mutating = {}
+
+
+def mutating_methods(repo):
+    """names of methods that (transitively, through self-calls) assign / delete / mutate an attribute of
+    their object: a call of such a method is an event, not a value (calling it twice is not calling it once)"""
+    key = repo.root
+    if key in _mutating:
+        return _mutating[key]
+    from .flow import MUTATORS
+
+    direct, calls = set(), {}
+    for f in repo.all_functions():
+        if f.cls is None or f.name == "__init__":
+            continue
+        mut = False
+        callees = set()
+        for n in f.body_nodes():
+            if isinstance(n, (ast.Attribute, ast.Subscript)) and isinstance(n.ctx, (ast.Store, ast.Del)) and u(n).startswith("self."):
+                mut = True
+            elif isinstance(n, ast.Call) and isinstance(n.func, ast.Attribute):
+                recv = u(n.func.value)
+                if n.func.attr in MUTATORS and recv.startswith("self."):
+                    mut = True
+                elif recv == "self":
+                    callees.add(n.func.attr)
+        if mut:
+            direct.add(f.name)
+        calls.setdefault(f.name, set()).update(callees)
+    changed = True
+    while changed:
+        changed = False
+        for name, cs in calls.items():
+            if name not in direct and cs & direct:
+                direct.add(name)
+                changed = True
+    _mutating[key] = direct
+    return direct
+
+
 class _H(Hooks):
     unroll = 1
+    mut = frozenset()
+
+    def pure(self, ftext):
+        if "." in ftext:
+            recv, name = ftext.rsplit(".", 1)
+            if name in self.mut and (recv == "self" or recv.startswith("self.")):
+                return False
+        return True
 
 
-class _H2(Hooks):
+class _H2(_H):
     unroll = 2
 
 
@@ -71,21 +119,33 @@ def _norm_atom(a):
 _cache = {}
 
 
-def table(fi, max_paths=4000, unroll=1):
-    key = (fi.module.repo.root, fi.key, unroll)
+def table(fi, max_paths=4000, unroll=1, events=False):
+    """decision table of a function; with events=True calls of state-changing methods of the same object
+    are recorded as effects in call order even when their value is used (token-stream consumers etc.)"""
+    key = (fi.module.repo.root, fi.key, unroll, events)
     if key not in _cache:
+        _H.mut = frozenset(mutating_methods(reference_repo()) | mutating_methods(fi.module.repo)) if events else frozenset()
         try:
-            _cache[key] = Evaluator(_H2() if unroll == 2 else _H(), max_paths=max_paths if unroll == 1 else 600).paths(fi.node)
+            _cache[key] = Evaluator(_H2() if unroll == 2 else _H0() if unroll == 0 else _H(), max_paths=max_paths if unroll < 2 else 600).paths(fi.node)
         except (AnalysisError, RecursionError) as e:
             _cache[key] = e
     return _cache[key]
 
 
+class _H0(_H):
+    """one iteration of every loop (functions that are one big `while True` scanner loop)"""
+
+    unroll = 1
+    while_extra = 0
+
+
 def tables(cur_f, ref_f):
     """deepest unrolling both sides can afford"""
-    a, b = table(cur_f, unroll=2), table(ref_f, unroll=2)
+    a, b = table(cur_f, unroll=2, events=True), table(ref_f, unroll=2, events=True)
     if isinstance(a, Exception) or isinstance(b, Exception):
-        a, b = table(cur_f), table(ref_f)
+        a, b = table(cur_f, events=True), table(ref_f, events=True)
+    if isinstance(a, Exception) or isinstance(b, Exception):
+        a, b = table(cur_f, unroll=0, events=True), table(ref_f, unroll=0, events=True)
     return a, b
 
 
@@ -243,7 +303,24 @@ def _skel(text):
     """skeleton of a value text: contents of (...) and [...] removed (robust to loop<->comprehension
     rewrites and to how an element of a collection is denoted)"""
     out, depth = [], 0
+    quote = None
+    prev = ""
     for ch in text:
+        # string literals are atomic (a quoted bracket is not a bracket)
+        if quote is not None:
+            if depth == 0:
+                out.append(ch)
+            if ch == quote and prev != "\\":
+                quote = None
+            prev = ch
+            continue
+        if ch in "'\"":
+            quote = ch
+            if depth == 0:
+                out.append(ch)
+            prev = ch
+            continue
+        prev = ch
         if ch in "([":
             if depth == 0:
                 out.append(ch)
@@ -266,7 +343,14 @@ def _eff_key(e):
         t = _skel(_norm_atom(e[1])) if isinstance(e[1], str) else ""
         if not t.startswith("self.") and "." in t:
             t = "*." + t.rsplit(".", 1)[1]  # receiver denoted by an expression: only the operation is compared
-        return (e[0], t)
+        consts = []
+        for x in _bound_call(e)[2:]:
+            k = None
+            if isinstance(x, tuple) and len(x) == 2 and isinstance(x[0], str):
+                k, x = x
+            if isinstance(x, (str, int, float, bool)) or x is None:
+                consts.append(repr(x) if k is None else f"{k}={x!r}")
+        return (e[0], t, *consts)
     for x in e[1:]:
         if isinstance(x, tuple) and len(x) == 2 and isinstance(x[0], str):
             out.append((x[0], _skel(_norm_atom(vtext(x[1])))))
@@ -317,10 +401,14 @@ def compare_tables(ct, rt):
     findings = []
     ref_atoms = {_norm_atom(a) for p in rt for a in p.atoms if not a.startswith("more(")}
     cur_atoms = {_norm_atom(a) for p in ct for a in p.atoms if not a.startswith("more(")}
-    sk_ref = {_skel(a) for a in ref_atoms}
-    sk_cur = {_skel(a) for a in cur_atoms}
-    gone = sorted(a for a in ref_atoms - cur_atoms if not a.startswith("raises(") and _skel(a) not in sk_cur)
-    new = sorted(a for a in cur_atoms - ref_atoms if not a.startswith("raises(") and _skel(a) not in sk_ref)
+    def _sk(a):
+        # type tests are compared exactly (what is tested for which class); other conditions by skeleton
+        return a if a.startswith("isinstance(") else _skel(a)
+
+    sk_ref = {_sk(a) for a in ref_atoms}
+    sk_cur = {_sk(a) for a in cur_atoms}
+    gone = sorted(a for a in ref_atoms - cur_atoms if not a.startswith("raises(") and _sk(a) not in sk_cur)
+    new = sorted(a for a in cur_atoms - ref_atoms if not a.startswith("raises(") and _sk(a) not in sk_ref)
     if gone and new:
         findings.append(("condition-replaced", f"{gone[0]} -> {new[0]}", None,
                          f"the reviewed condition(s) {gone} no longer occur; the function now tests {new} instead (a weaker / stronger / different condition decides the same cases)"))
